@@ -176,9 +176,12 @@ class Paths:
         cfg = CFG(fn.body)
         partial = set()
         if cfg.loop_heads():
-            if self.loops != "once":
+            if self.loops == "unroll":
+                paths = _paths_unroll(cfg, self.path_limit * 4)
+            elif self.loops != "once":
                 raise HasLoop("%s has a loop" % fn.path)
-            paths = _paths_once(cfg, self.path_limit, partial)
+            else:
+                paths = _paths_once(cfg, self.path_limit, partial)
         else:
             try:
                 paths = enum_paths(cfg, 0, None, self.path_limit)
@@ -811,6 +814,17 @@ class Paths:
                             return None
                         out += [(conj + f2, e2, some(r2)) for f2, e2, r2 in res]
             return out
+        if self.loops == "unroll" and name == "next" and len(args) == 1 and "Iterator" in path:
+            hit = _array_iter_base(raw(0))
+            if hit is None:
+                raise Unsupported("a loop over something other than an array literal cannot be unrolled")
+            base, arr, by_ref = hit
+            k = st.env.get(("iterpos", base), 0)
+            st.env[("iterpos", base)] = k + 1
+            if k < len(arr[2]):
+                el = arr[2][k]
+                return [([], [], some(("ref", el) if by_ref else el))]
+            return [([], [], NONE)]
         if self.loops == "once" and name in ("for_each", "try_for_each") and "iter::traits::iterator::Iterator" in path and len(args) == 2:
             # an internal-iteration loop, walked once like a `for` loop: no item, or one item handed to the closure
             is_try = name == "try_for_each"
@@ -926,6 +940,46 @@ def _paths_once(cfg, limit, partial):
         onpath.discard(b)
     rec(0, [], set())
     return out
+
+
+def _paths_unroll(cfg, limit, max_visits=4):
+    """entry -> return paths on which every block occurs at most `max_visits` times (for loops over a fixed, small
+    number of items: the model of `next` on an array iterator makes all but the right iteration count contradictory)"""
+    body = cfg.body
+    out = []
+
+    def rec(b, path, count):
+        if len(out) > limit:
+            raise Unsupported("too many paths")
+        path.append(b)
+        count[b] = count.get(b, 0) + 1
+        t = body["blocks"][b]["t"]
+        if t and t["k"] == "return":
+            out.append(list(path))
+        else:
+            for s_ in cfg.succ[b]:
+                if count.get(s_, 0) < max_visits:
+                    rec(s_, path, count)
+        path.pop()
+        count[b] -= 1
+    rec(0, [], {})
+    return out
+
+
+def _array_iter_base(t):
+    """(array aggregate, by_ref) if t is an iterator created directly over an array literal: into_iter(array{..}),
+    iter(array{..}) — looked at through references and the history of earlier `next` calls"""
+    while t[0] in ("ref", "deref", "mut", "update"):
+        t = t[1]
+    if t[0] == "call" and t[1].split("::")[-1] in ("into_iter", "iter") and len(t[3]) == 1:
+        by_ref = t[1].split("::")[-1] == "iter"
+        a = t[3][0]
+        while a[0] in ("ref", "deref"):
+            by_ref = by_ref or a[0] == "ref"
+            a = a[1]
+        if a[0] == "agg" and a[1] == "array":
+            return t, a, by_ref
+    return None
 
 
 def _borrows_closure_state(blk, l):
